@@ -25,7 +25,7 @@ def run_restartable(ctx, binary, mode, cases, trace, extra, timeout=900):
     """Drivers exit with 7 after a decoder call that never returned (it cannot be stopped); re-run behind that case."""
     parts = []
     start = 0
-    for attempt in range(40):
+    for attempt in range(12):
         part = "%s.part%d" % (trace, attempt)
         logp = vlib.run_driver(ctx, binary, ["-mode", mode, "-cases", cases, "-trace", part, "-from", str(start)] + extra,
                                timeout=timeout, ok_codes=(0, 7))
@@ -34,6 +34,8 @@ def run_restartable(ctx, binary, mode, cases, trace, extra, timeout=900):
         if not m:
             break
         start = int(m.group(1))
+    else:
+        ctx.notes.append("%s: %d decoder calls never returned; the cases behind case %d were not run" % (mode, len(parts), start))
     with open(trace, "w") as fo:
         for p in parts:
             if os.path.exists(p):
@@ -94,7 +96,7 @@ def run(ctx):
     # ------------------------------------------------------------------ part 1: xprotocol decoders and matchers
     if "xdec" in only:
         cases = os.path.join(ctx.tmp, "xcases.jsonl")
-        r = vlib.run_tlc(ctx, "wire", "Malformed", "Malformed.cfg", workers=1, cases_to=cases, timeout=900)
+        r = vlib.run_tlc(ctx, "wire", "Malformed", "Malformed.cfg" if q else "Malformed_thorough.cfg", workers=1, cases_to=cases, timeout=1500)
         ctx.add_tlc(r)
         for d in ("AllocBeforeComplete", "NoCompleteCheck", "CompleteIgnoresBias", "UncheckedKvLen"):
             if vlib.run_tlc(ctx, "wire", "Malformed", "Malformed_defect_%s.cfg" % d, expect_ok=False)["ok"]:
@@ -117,7 +119,7 @@ def run(ctx):
     # ------------------------------------------------------------------ part 2: HTTP/2 framer and HPACK decoder
     if "h2" in only:
         cases = os.path.join(ctx.tmp, "h2cases.jsonl")
-        r = vlib.run_tlc(ctx, "wire", "MalformedH2", "MalformedH2.cfg", workers=1, cases_to=cases, timeout=900)
+        r = vlib.run_tlc(ctx, "wire", "MalformedH2", "MalformedH2.cfg" if q else "MalformedH2_thorough.cfg", workers=1, cases_to=cases, timeout=1500)
         ctx.add_tlc(r)
         if vlib.run_tlc(ctx, "wire", "MalformedH2", "MalformedH2_defect_ContOffsetStuck.cfg", expect_ok=False)["ok"]:
             raise vlib.Inconclusive("MalformedH2 model does not reject defect ContOffsetStuck")
@@ -189,5 +191,5 @@ def run(ctx):
     ctx.cov["exhaustive"] = True
     ctx.assumptions += ["decoders are called as the stream layer calls them (fresh buffer-pool context, IoBuffer over the received bytes)",
                         "allocation is measured with runtime/metrics around the call; bound 1 MiB + 16 bytes per supplied byte",
-                        "a decoder call that has not returned after 40 s or grew the heap by 400 MB is a loop",
+                        "a decoder call that has not returned after 40 s or keeps growing the heap beyond 200 MB is a loop",
                         "e2e: a peer that saw neither bytes nor a close for 8 s calls its connection silent; gauges get 10 s to settle"]
